@@ -14,7 +14,7 @@ from vc.rsfe import RsProgram
 from vc.reflect import reflect_rs_bool_methods, rs_judgement_contracts
 from vc.rscontract import verify_rs_unit
 from vc import sm, sem
-from contracts.rust_subst import inst_contracts
+from contracts.rust_subst import inst_contracts, rs_fn_replayer
 from contracts.rust_judgements import judgement_lemmas, judgement_replayer
 from contracts.sm_contracts import step_unit, equivalence_lemmas, ReadVecContract, read_vec_unit, TakeLoop, verify_unit, exit_unit
 
@@ -65,6 +65,8 @@ def build(repo, tier):
         notes=['spec decisions: ' + ' | '.join(sm.SPEC_DECISIONS)])
     spec.lemma_replayers['lemma:rs_'] = judgement_replayer
     spec.lemma_replayers['C01/rs/step/'] = lambda name, model, root: c05.step_replayer(name.replace('C01/', 'C05/', 1), model, root)
+    for _fn in ('apply_esubst', 'apply_ssubst', 'instantiate_internal'):
+        spec.lemma_replayers['C01/rs/' + _fn + '/'] = rs_fn_replayer
     spec.extra_checks.append(lambda tier, seed: [soundness_standin(repo.root, tier, seed)])
     return spec
 
